@@ -178,23 +178,25 @@ SLW = "theories/Properties/SourceLevelWasm.v"
 SKW = "theories/Properties/SourceKernelWasmFull.v"
 SKW_ALL = ["SRCW_new", "SRCW_zipper_merge", "SRCW_update", "SRCW_permute_and_update", "SRCW_modular_reduction", "SRCW_wrapper", "SRCW_helpers",
            "SRCW_le_u64", "SRCW_unordered_load3", "SRCW_data_to_lanes", "SRCW_load_multiple_of_four", "SRCW_remainder", "SRCW_rotate_32_by", "SRCW_packet",
-           "SRCW_update_remainder", "SRCW_finalize", "SRCW_append"]
+           "SRCW_update_remainder", "SRCW_finalize", "SRCW_append", "SRCW_checkpoint", "SRCW_from_checkpoint"]
 # theorems about the interpreted source text as a whole (sessions of new / append / finalize / checkpoint / from_checkpoint)
 EXTRA_THEOREMS = {
     "C01": [(SL, ["SRC_source_is_highwayhash", "SRC_source_continue"])],
     # the whole of src/wasm.rs, translated from the current source, is the model Wasm.v; and the interpreted wasm.rs computes
     # HighwayHash / agrees with the interpreted portable.rs
-    "C04": [(SKW, SKW_ALL), (SLW, ["SRCW_source_is_highwayhash", "SRCW_source_agrees_with_portable_source", "SRCW_source_continue"])],
+    "C04": [(SKW, SKW_ALL), (SLW, ["SRCW_source_is_highwayhash", "SRCW_source_agrees_with_portable_source", "SRCW_source_continue",
+                                   "SRCW_source_checkpoint_interchangeable", "SRCW_source_restore_total"])],
     "C05": [(SL, ["SRC_source_streaming_invariance", "SRC_source_continue"]),
             (SLW, ["SRCW_source_streaming_invariance"]),
             ("theories/Properties/FactsC05.v", ["C05_provided_methods", "C05_append_text_shared"])],
-    "C06": [(SL, ["SRC_source_checkpoint_transparent", "SRC_source_restore_total"])],
+    "C06": [(SL, ["SRC_source_checkpoint_transparent", "SRC_source_restore_total"]),
+            (SLW, ["SRCW_source_checkpoint_transparent", "SRCW_source_checkpoint_interchangeable"])],
     "C08": [(SL, ["SRC_source_is_highwayhash", "SRC_source_continue", "SRC_source_restore_total", "SRC_source_checkpoint_canonical"]),
             (SLW, ["SRCW_source_is_highwayhash", "SRCW_source_continue"])],
-    "C11": [(SL, ["SRC_source_restore_total"])],
+    "C11": [(SL, ["SRC_source_restore_total"]), (SLW, ["SRCW_source_restore_total"])],
     "C12": [("theories/Properties/FactsC05.v", ["C05_provided_methods"])],
     "C13": [("theories/Properties/FactsC05.v", ["C05_provided_methods"])],
-    "C14": [(SL, ["SRC_source_checkpoint_canonical"])],
+    "C14": [(SL, ["SRC_source_checkpoint_canonical"]), (SLW, ["SRCW_source_checkpoint_canonical", "SRCW_source_checkpoint_interchangeable"])],
 }
 
 
